@@ -910,9 +910,11 @@ class C11Check(PCheck):
                 # them changes the chemistry that is recoverable, not just the presentation (DESIGN.md section 7)
                 v['present']['hren'] = rng.randrange(1 << 30)
             if kind in ('rigid', 'combo'):
-                v['present']['rigid'] = [rng.randrange(24)] + [rng.randrange(-20000, 20000) for _ in range(3)]
+                span = 900000 if rng.random() < 0.3 else 20000      # a structure far from the origin is the same structure
+                v['present']['rigid'] = [rng.randrange(24)] + [rng.randrange(-span, span) for _ in range(3)]
             if kind == 'mem_rigid':
-                v['present']['mem_rigid'] = {'matrix': random_rotation(rng), 'shift': [rng.uniform(-3, 3) for _ in range(3)]}
+                far = 80.0 if rng.random() < 0.3 else 3.0
+                v['present']['mem_rigid'] = {'matrix': random_rotation(rng), 'shift': [rng.uniform(-far, far) for _ in range(3)]}
             if kind == 'combo' and rng.random() < 0.5:
                 v['other_hash'] = True
             variants.append(v)
